@@ -257,6 +257,17 @@ func buildSidecarOutboundTCPFilterChainOpts(node *model.Proxy, push *model.PushC
 	// This is the terminating condition in the filter chain match list
 	defaultRouteAdded := false
 	subnetsHandled := sets.New[string]() // sets of destination subnets a filter chain has been generated for
+	// A catch-all route matches the service's own addresses. If an earlier route already matched exactly these
+	// subnets, the catch-all route can never be reached, and a second filter chain with the same CIDR match makes
+	// Envoy reject the whole listener (the default route below is suppressed the same way).
+	serviceCIDRsHandled := func() bool {
+		if len(destinationCIDRs) == 0 {
+			return false
+		}
+		sorted := slices.Clone(destinationCIDRs)
+		sort.Strings(sorted)
+		return subnetsHandled.Contains(strings.Join(sorted, ","))
+	}
 TcpLoop:
 	for _, cfg := range configs {
 		virtualService := cfg.Spec.(*v1alpha3.VirtualService)
@@ -267,11 +278,13 @@ TcpLoop:
 			}
 			if len(tcp.Match) == 0 {
 				// implicit match
-				out = append(out, &filterChainOpts{
-					metadata:         util.BuildConfigInfoMetadata(cfg.Meta),
-					destinationCIDRs: destinationCIDRs,
-					networkFilters:   lb.buildOutboundNetworkFilters(tcp.Route, listenPort, cfg.Meta, false),
-				})
+				if !serviceCIDRsHandled() {
+					out = append(out, &filterChainOpts{
+						metadata:         util.BuildConfigInfoMetadata(cfg.Meta),
+						destinationCIDRs: destinationCIDRs,
+						networkFilters:   lb.buildOutboundNetworkFilters(tcp.Route, listenPort, cfg.Meta, false),
+					})
+				}
 				defaultRouteAdded = true
 				break TcpLoop
 			}
@@ -291,11 +304,13 @@ TcpLoop:
 					// But if we find only runtime destination subnet matches in all match blocks, collect them
 					// (this is similar to virtual hosts in http) and create filter chain match accordingly.
 					if len(match.DestinationSubnets) == 0 || listenPort.Port == 0 {
-						out = append(out, &filterChainOpts{
-							metadata:         util.BuildConfigInfoMetadata(cfg.Meta),
-							destinationCIDRs: destinationCIDRs,
-							networkFilters:   lb.buildOutboundNetworkFilters(tcp.Route, listenPort, cfg.Meta, false),
-						})
+						if !serviceCIDRsHandled() {
+							out = append(out, &filterChainOpts{
+								metadata:         util.BuildConfigInfoMetadata(cfg.Meta),
+								destinationCIDRs: destinationCIDRs,
+								networkFilters:   lb.buildOutboundNetworkFilters(tcp.Route, listenPort, cfg.Meta, false),
+							})
+						}
 						defaultRouteAdded = true
 						break TcpLoop
 					}
